@@ -1,4 +1,6 @@
 import BurrowVerif.Model.Storage
+import BurrowVerif.Model.Group
+import BurrowVerif.Model.Float32
 import Driver.Util
 
 namespace Driver.StorageD
@@ -47,6 +49,18 @@ def renderTopics (topics : ConsumerTopics) : String :=
   let own := per fun p => unname p.owner ++ "/" ++ unname p.clientID
   let bro := per fun p => showInts p.brokerOffsets
   s!"win={win} lag={lag} own={own} bro={bro}"
+
+def showStatusOffset : Option Commit → String
+  | none => "nil"
+  | some c => s!"{c.offset}:{c.ts}:{match c.lag with | none => "-" | some l => toString l}"
+
+def renderGroupStatus (g : Group.GroupStatus) : String :=
+  let parts := g.partitions.map fun p =>
+    s!"{unname p.topic}/{p.partition}/{p.st.status.toNat}/{p.st.currentLag}/{hexOfNat (F32.divBits p.st.complete.1 p.st.complete.2) 8}/{showStatusOffset p.st.start}/{showStatusOffset p.st.«end»}/{unname p.owner}/{unname p.clientID}"
+  let sorted := sortStrings parts
+  let ps := if sorted.isEmpty then "-" else ",".intercalate sorted
+  let maxlag := match g.maxlag with | none => "-" | some m => toString m.st.currentLag
+  s!"gs={g.status.toNat} complete={hexOfNat (F32.divBits g.complete.1 g.complete.2) 8} count={g.totalPartitions} total={g.totalLag} maxlag={maxlag} parts={ps}"
 
 def showOutcome : Outcome → String
   | .ok => "ok"
@@ -115,6 +129,18 @@ def step (st : St) (args : List String) : St × String :=
         match fetchTopic s (name c) (name t) with
         | none => (st, "nil")
         | some l => (st, "offs=" ++ showInts l)
+      | "status", [now, c, g, minBits, allowed, showAll] =>
+        match parseInt? now, hexNat? minBits, parseNat? allowed with
+        | some now, some minBits, some allowed =>
+          let (s', r) := fetchConsumer s now (name c) (name g)
+          (some s', match r with
+            | .notFound => "gs=0 complete=3f800000 count=0 total=0 maxlag=- parts=-"
+            | .panic => "panic"
+            | .found topics =>
+              match Group.evaluateGroup (F32.meets minBits) now allowed topics with
+              | none => "panic"
+              | some gs => renderGroupStatus (if showAll == "1" then gs else Group.filterView gs))
+        | _, _, _ => (st, "bad-op")
       | "consumer", [now, c, g] =>
         match parseInt? now with
         | some now =>
